@@ -113,15 +113,15 @@ impl Signature {
     pub fn from_compact_impl(compact_bytes: &[u8]) -> Result<Signature, BSVErrors> {
         // 27-30: P2PKH uncompressed
         // 31-34: P2PKH compressed
-        let (recovery, is_compressed) = match (compact_bytes[0] - 27) as i8 - 4 {
-            x if x < 0 => (x + 4, false),
-            x => (x, true),
-        };
-
-        // TODO: Check Recovery Endianness so we can recover x and y info.
-        if recovery > 3 {
-            return Err(BSVErrors::SignatureError("Cannot have recovery byte that is larger than 3."));
+        if compact_bytes.len() != 65 {
+            return Err(BSVErrors::SignatureError("Compact signature must be exactly 65 bytes long."));
         }
+
+        let (recovery, is_compressed) = match compact_bytes[0] {
+            x @ 27..=30 => (x - 27, false),
+            x @ 31..=34 => (x - 31, true),
+            _ => return Err(BSVErrors::SignatureError("Cannot have recovery byte that is larger than 3.")),
+        };
 
         let r = *FieldBytes::from_slice(&compact_bytes[1..33]);
         let s = *FieldBytes::from_slice(&compact_bytes[33..65]);
@@ -130,7 +130,7 @@ impl Signature {
 
         Ok(Signature {
             sig,
-            recovery: Some(RecoveryInfo::from_byte(recovery as u8, is_compressed)),
+            recovery: Some(RecoveryInfo::from_byte(recovery, is_compressed)),
         })
     }
 }
